@@ -3,7 +3,7 @@
 use serde_json::Value;
 
 use crate::fw::{Batch, CheckSpec, Tier, drive};
-use crate::{Args, eng_disk, eng_sched, eng_store, eng_txm};
+use crate::{Args, eng_disk, eng_hist, eng_sched, eng_store, eng_txm};
 
 const REAL_TXM: &[&str] = &["grafeo_engine::transaction::TransactionManager (all of manager.rs)"];
 
@@ -13,6 +13,8 @@ pub fn run_check(id: &str, args: &Args) -> i32 {
         "C04" => c04(args),
         "C14" => c14(args),
         "C20" => c20(args),
+        "C01" => c_hist(args, "C01"),
+        "C02" => c_hist(args, "C02"),
         "C05" => c_disk(args, "C05"),
         "C06" => c_disk(args, "C06"),
         _ => {
@@ -198,6 +200,31 @@ fn c20(args: &Args) -> i32 {
     )
 }
 
+fn c_hist(args: &Args, prop: &'static str) -> i32 {
+    let thorough = args.tier == Tier::Thorough;
+    let spec = CheckSpec {
+        property: prop,
+        check_name: prop,
+        level: "exploration",
+        engine: "HIST",
+        rule: if prop == "C01" {
+            "histories over 2-4 sessions of one in-memory GrafeoDB (begin/commit/rollback/drop-session; node/edge/property/label/triple mutations through the session API, GQL, SPARQL and the GrafeoDB direct API; every kind of read: label scan, unlabelled scan, expand, count, point lookups, batch lookup, neighbour listing, SPARQL pattern, GrafeoDB counts/iteration) in a total order chosen by the run seed; per-run subsets of mutation kinds; reads are placed after mutations, by every session after every commit/rollback, and repeated inside transactions. Non-trivial = at least one observation was made while another session had a transaction open or by a session inside a transaction; distinct = distinct operation lists".into()
+        } else {
+            "one transaction at a time under the microscope (1-4 mutations, 70% of one kind) ended by commit, rollback or dropping the session, with other sessions interleaving committed (auto-commit) work; after each end a fresh session dumps the database through every access path (scans per label, unlabelled scan, expand, point lookups of every id ever handed out, neighbour listing, counts, all triples) and the dump is compared with the specification's committed state; distinct = distinct operation lists".into()
+        },
+        real: vec!["grafeo_engine::{GrafeoDB, Session}", "TransactionManager", "LpgStore", "RdfStore", "GQL/SPARQL parser, translator, binder, optimizer, planner, operators"],
+        stub: vec!["none (in-memory database); the pinned twin (/verif/pinned) is an unmodified copy of the tree at the pinned commit, used only to classify deviations as already-known"],
+        assumptions: vec![
+            "interleaving granularity = whole session calls (sessions never block); thread-level interleavings inside a call are C20's".into(),
+            "two open transactions never write the same entity in these histories (that is C03's question); the generator locks written entities until the transaction ends".into(),
+            "a failed commit cannot be produced through the public API of the pinned tree (nothing registers write sets); that end is therefore not generated".into(),
+        ],
+        unchecked: vec!["Cypher/Gremlin/GraphQL front ends are not used here (same planner and operators underneath)".into(), "MERGE (returns no id to map)".into()],
+    };
+    let batch = Batch { spec, tier: args.tier, seed: args.seed, runs: runs(args, 20_000, 1_000_000), workers: args.workers };
+    drive(batch, &|seed, _i| eng_hist::run_one(seed, prop, thorough), Some(&eng_hist::minimise), &mut |_| {})
+}
+
 pub fn replay_file(path: &str) -> i32 {
     let text = match std::fs::read_to_string(path) {
         Ok(t) => t,
@@ -221,6 +248,7 @@ pub fn replay_file(path: &str) -> i32 {
         Some("STORE") => eng_store::replay(rep),
         Some("DISK") => eng_disk::replay(rep),
         Some("SCHED") => eng_sched::replay(rep, &prop),
+        Some("HIST") => eng_hist::replay(rep),
         other => {
             eprintln!("harness error: unknown engine {other:?} in {path}");
             return 2;
